@@ -57,14 +57,16 @@ CATALOGUE = {
     'ring': [[0, 0, 4, 0, 4, 4, 0, 0], [1, 1, 3, 1, 3, 3, 1, 3, 1, 1], [], [2, 2, 2, 2],
              [0, 0, 0, 4, 4, 4, 4, 0, 0, 0]],
     'multiline': [[[0, 0, 4, 4], [0, 4, 4, 0]], [[1, 1, 3, 1]], [], [[0, 2, 4, 2], [2, 0, 2, 4], [9, 9, 8, 8]],
-                  [[0, 0, 0, 4, 4, 4], [4, 4, 4, 0]], [[2, 2, 2, 2], [5, 5, 6, 6]], [[-3, 2, 9, 9]]],
+                  [[0, 0, 0, 4, 4, 4], [4, 4, 4, 0]], [[2, 2, 2, 2], [5, 5, 6, 6]], [[-3, 2, 9, 9]],
+                  [[]], [[0, 0, 2, 2], []], [[], [1, 1, 3, 1], []]],
     'polygon': [[sq(0, 0, 2, 2)], [sq(1, 1, 3, 3)], [sq(0, 0, 4, 4)], [sq(0, 0, 4, 4), sq(1, 1, 3, 3, cw=True)],
                 [], [[0, 0, 4, 0, 2, 4, 0, 0]], [sq(5, 5, 8, 8)], [sq(2, 2, 4, 4, cw=True)],
                 [[0, 0, 4, 4, 4, 0, 0, 4, 0, 0]], [sq(-4, -4, 10, 10)], [[1, 0, 3, 0, 4, 2, 3, 4, 1, 4, 0, 2, 1, 0]],
-                [sq(0, 0, 4, 4), sq(1, 1, 2, 2, cw=True), sq(2, 2, 3, 3, cw=True)]],
+                [sq(0, 0, 4, 4), sq(1, 1, 2, 2, cw=True), sq(2, 2, 3, 3, cw=True)], [[]], [sq(1, 1, 3, 3), []]],
     'multipolygon': [[[sq(0, 0, 1, 1)], [sq(3, 3, 4, 4)]], [[sq(0, 0, 4, 4), sq(1, 1, 3, 3, cw=True)], [sq(2, 2, 3, 3)]],
                      [], [[sq(0, 0, 2, 2)], [sq(1, 1, 3, 3)]], [[sq(5, 5, 6, 6)], [sq(7, 7, 9, 9)]],
-                     [[[0, 0, 4, 0, 2, 4, 0, 0]]], [[sq(0, 0, 2, 4)], [sq(2, 0, 4, 4)]]],
+                     [[[0, 0, 4, 0, 2, 4, 0, 0]]], [[sq(0, 0, 2, 4)], [sq(2, 0, 4, 4)]], [[]], [[[]]],
+                     [[sq(0, 0, 2, 2)], []]],
 }
 KINDS = list(CATALOGUE)
 
